@@ -667,8 +667,12 @@ class SeedCoherenceAnalyzer(object):
             Cxy = np.empty((self.target.data.shape[0],
                             self.frequencies.shape[0]), dtype=complex)
 
-        #Get the fft window cache for the target time-series:
-        cache = self.target_cache
+        #Get the fft window cache for the target time-series (the seed's slices
+        #are inserted below, so work on copies of the cached dictionaries):
+        cache = dict(self.target_cache)
+        for key in ('FFT_slices', 'FFT_conj_slices'):
+            if key in cache:
+                cache[key] = dict(cache[key])
 
         #A list of indices for the target:
         target_chan_idx = np.arange(self.target.data.shape[0])
